@@ -152,6 +152,38 @@ Proof.
 Qed.
 Print Assumptions remove_terminates_refuted_without_lstat.
 
+(* ---- RemoveWithPrivileges: first attempt, take ownership of dir (Chown follows links), second attempt, forced
+   removal.  Ownership is part of the state.  Whatever the two ordinary attempts and the forced removal do — they may
+   fail for reasons the model does not know — as long as each stays at or below the path (which remove0 and
+   force_remove do), nothing outside the tree changes: no entry, and no OWNER either. ---- *)
+Theorem remove_with_privileges_confined : forall pass1 pass2 force me s o p,
+  pass_confined pass1 -> pass_confined pass2 -> pass_confined force -> dirs_above s p ->
+  forall q, ~ under p q ->
+    lookup (fst (fst (remove_with_privileges pass1 pass2 force true me s o p))) q = lookup s q /\
+    snd (fst (remove_with_privileges pass1 pass2 force true me s o p)) q = o q.
+Proof. exact privileges_confined_l. Qed.
+Print Assumptions remove_with_privileges_confined.
+
+(* the attempts and the forced removal of the library satisfy the premise *)
+Theorem library_passes_confined : forall cancelled fuel,
+  pass_confined (remove0 true cancelled fuel) /\ pass_confined force_remove.
+Proof. intros c fuel. split; [apply remove0_pass_confined | exact force_remove_pass_confined]. Qed.
+Print Assumptions library_passes_confined.
+
+(* before the fix (no Lstat before ChangeOwnership): RemoveWithPrivileges(link to an outside directory) whose first
+   attempt fails re-owns the outside directory; replayed by the harness on every run *)
+Theorem privileges_refuted_without_link_check :
+  exists s o p q, dirs_above s p /\ ~ under p q /\
+    snd (fst (remove_with_privileges failing_pass failing_pass force_remove false 0 s o p)) q <> o q /\
+    snd (fst (remove_with_privileges failing_pass failing_pass force_remove true 0 s o p)) q = o q.
+Proof.
+  exists priv_witness, (fun _ => 4242%Z), [nm 3; nm 5], [nm 1].
+  destruct priv_witness_facts as [H1 [H2 _]].
+  split; [exact priv_witness_dirs_above|]. split; [intros [r H]; simpl in H; inversion H|].
+  split; [rewrite H1; discriminate | exact H2].
+Qed.
+Print Assumptions privileges_refuted_without_link_check.
+
 (* ---- non-vacuity ---- *)
 Example c04_nonvacuous_remove :
   let r := remove_top noex_n noex_p true false 10 witness [nm 3] in
